@@ -27,12 +27,13 @@ func init() {
 	register(&Prop{
 		ID:        "C05",
 		Level:     "other",
-		Technique: "who-may-write / constant-plumbing tables for the isolation level, guard-fact rules on the only record appender and the aborted-transaction tracker, must-pass-through of the abort-marker bookkeeping in the per-record loop",
+		Technique: "who-may-write / constant-plumbing tables for the isolation level, guard-fact rules on the only record appender and the aborted-transaction tracker, must-pass-through of the abort-marker bookkeeping in the per-record loop, sort-key agreement of every binary search over kfake's aborted-transaction index",
 		Explanation: "(1) isolation plumbing: every fetchRequest literal sets isolationLevel from cfg.isolationLevel, fetchRequest.AppendTo copies it into kmsg.FetchRequest.IsolationLevel, processRespPartition builds ProcessFetchPartitionOpts.IsolationLevel from the same config field, buildListReq stores its parameter into the list request and its caller passes cfg.isolationLevel; " +
 			"(2) buildAborter is invoked exactly under IsolationLevel.level == 1 and sorts each producer's aborted first offsets; " +
 			"(3) the only append to FetchPartition.Records (maybeKeepRecord) is dominated by !abort, with abort forced for control records unless KeepControlRecords, and processRecordBatch passes shouldAbortBatch(batch) for every record; " +
-			"(4) trackAbortedPID pops exactly one aborted transaction per abort marker, is reached only for control records with key type 0 of an aborted batch at most once per batch, and that bookkeeping is on every path of the per-record loop (a kept record cannot skip it).",
-		NotDecided: "the broker half (kfake's last-stable-offset and aborted-transaction index), and eventual delivery of committed data across fetches.",
+			"(4) trackAbortedPID pops exactly one aborted transaction per abort marker, is reached only for control records with key type 0 of an aborted batch at most once per batch, and that bookkeeping is on every path of the per-record loop (a kept record cannot skip it); " +
+			"(5) broker half in kfake: every binary search of a partition's aborted-transaction index compares the index's sort key lastOffset (>= start), and handleFetch reports each entry from there on unless it starts at or after one past the last returned offset - i.e. every aborted transaction overlapping the returned range is in AbortedTransactions (C32 checks the last-stable-offset cut of the same handler).",
+		NotDecided: "eventual delivery of committed data across fetches; the history-level behaviour of kfake's transaction state.",
 		Run:        runC05,
 	})
 }
@@ -71,6 +72,107 @@ func runC05(c *Ctx) {
 	c05plumbing(c, m)
 	fetchKeepRules(c, m)
 	abortRules(c, m)
+	c05kfakeAbortedIndex(c)
+}
+
+// c05kfakeAbortedIndex: the broker half that the client's aborter depends on.
+// kfake's per-partition aborted-transaction index is ordered by lastOffset
+// (the abort marker); a read_committed fetch must report every entry that
+// overlaps the returned range [fetchOffset, upperBound): lower cut by binary
+// search on the index's sort key (lastOffset >= start), upper cut on
+// firstOffset < upperBound, reported as (producerID, firstOffset).  (C32 checks
+// the LSO side of the same handler.)
+func c05kfakeAbortedIndex(c *Ctx) {
+	m := c.Load("pkg/kfake")
+	if m == nil {
+		return
+	}
+	rule := "kfake-aborted-index-lookup"
+	fv := m.Field("kfake", "partData", "abortedTxns")
+	last := m.Field("kfake", "abortedTxnEntry", "lastOffset")
+	first := m.Field("kfake", "abortedTxnEntry", "firstOffset")
+	if fv == nil || last == nil || first == nil {
+		c.Undecided("anchor", "kfake.partData.abortedTxns", 0, m, "aborted-transaction index fields not found")
+		return
+	}
+	// the index is appended in marker order: every append stores lastOffset from the marker's offset
+	nSearch := 0
+	for _, f := range m.FuncsIn("kfake") {
+		info := f.Info()
+		ast.Inspect(f.Decl.Body, func(x ast.Node) bool {
+			call, ok := x.(*ast.CallExpr)
+			if !ok || len(call.Args) != 2 {
+				return true
+			}
+			fn, _ := calleeObj(info, call).(*types.Func)
+			if fn == nil || fn.Pkg() == nil || fn.Pkg().Path() != "sort" || fn.Name() != "Search" {
+				return true
+			}
+			// len(X.abortedTxns)
+			lc, ok := unparen(call.Args[0]).(*ast.CallExpr)
+			if !ok || len(lc.Args) != 1 || !sameField(fieldOfSel(info, lc.Args[0]), fv) {
+				return true
+			}
+			nSearch++
+			cons := f.Key + ": sort.Search over abortedTxns"
+			lit, ok := call.Args[1].(*ast.FuncLit)
+			good := false
+			if ok && len(lit.Body.List) == 1 {
+				if r, isR := lit.Body.List[0].(*ast.ReturnStmt); isR && len(r.Results) == 1 {
+					if be, isB := unparen(r.Results[0]).(*ast.BinaryExpr); isB && be.Op == token.GEQ {
+						good = sameField(fieldOfSel(info, be.X), last)
+					}
+				}
+			}
+			c.Check(good, rule, cons, call.Pos(), m, "binary search on the index's sort key lastOffset (>= start)", "the aborted-transaction index (ordered by lastOffset) is searched by another field or comparison: a transaction that started before the fetch offset but was aborted after it is not reported, so a read_committed consumer returns its aborted records")
+			return true
+		})
+	}
+	c.Floor(rule+"/searches", nSearch, 3)
+	f := c.NeedFunc(m, "kfake.Cluster.handleFetch")
+	if f == nil {
+		return
+	}
+	info := f.Info()
+	g := f.Graph()
+	nApp := 0
+	ast.Inspect(f.Decl.Body, func(x ast.Node) bool {
+		as, ok := x.(*ast.AssignStmt)
+		if !ok || len(as.Lhs) != 1 || !strings.HasSuffix(nosp(exprStr(as.Lhs[0])), ".AbortedTransactions") {
+			return true
+		}
+		call, ok := as.Rhs[0].(*ast.CallExpr)
+		if !ok || exprStr(call.Fun) != "append" {
+			return true
+		}
+		nApp++
+		l, _ := g.LocOf(as)
+		facts := g.FactsAt(l)
+		var guards []string
+		upper := false
+		for _, ft := range facts {
+			s := nosp(exprStr(ft.Cond))
+			be, isB := unparen(ft.Cond).(*ast.BinaryExpr)
+			if isB && sameField(fieldOfSel(info, be.X), first) {
+				if be.Op == token.GEQ && !ft.Val && nosp(exprStr(be.Y)) == "upperBound" {
+					upper = true
+					continue
+				}
+				guards = append(guards, s)
+				continue
+			}
+			if isB && sameField(fieldOfSel(info, be.X), last) {
+				guards = append(guards, s)
+			}
+		}
+		c.Check(upper && len(guards) == 0, rule, f.Key+": aborted entry reported unless it starts at or after the end of the returned range", as.Pos(), m, "", "the aborted-transaction list is filtered by "+strings.Join(guards, ", ")+" (expected only `firstOffset >= upperBound` to skip): an overlapping aborted transaction can be left out")
+		return true
+	})
+	c.Floor(rule+"/appends", nApp, 1)
+	if o := localObj(f, "upperBound"); o != nil {
+		d := singleDef(f, o)
+		c.Check(d != nil && nosp(exprStr(d)) == "lastMeta.firstOffset+int64(lastMeta.lastOffsetDelta)+1", rule, f.Key+": upperBound", f.Pos(), m, "one past the last returned offset", "upperBound is not one past the last offset of the last returned batch")
+	}
 }
 
 // c06ensureLen checks the shape the ensureLen summary relies on.
